@@ -47,6 +47,20 @@ template <class V> std::vector<long long> observe(const V &v) {
   return o;
 }
 
+// the const members of a shared const mdarray
+template <class Arr> std::vector<long long> observe_arr(const Arr &a) {
+  std::vector<long long> o;
+  constexpr size_t R = Arr::rank();
+  o.push_back((long long)to_i128(a.size())); o.push_back((long long)a.container().size()); o.push_back(a.data() != nullptr || a.container().size() == 0);
+  for (size_t r = 0; r < R; ++r) { o.push_back((long long)to_i128(a.extent(r))); o.push_back((long long)to_i128(a.stride(r))); }
+  o.push_back(a.is_unique()); o.push_back(a.is_exhaustive()); o.push_back(a.is_strided());
+  o.push_back((long long)to_i128(a.mapping().required_span_size()));
+  auto v = a.to_mdspan();
+  o.push_back((long long)v.size()); o.push_back(v.data_handle() == a.data());
+  if (a.container().size() > 0) o.push_back((long long)a.container()[a.container().size() - 1]);
+  return o;
+}
+
 template <class V, size_t... I>
 decltype(auto) elem_form(const V &v, const Act &a, std::index_sequence<I...> seq) {
   using T = typename V::index_type;
